@@ -1,7 +1,8 @@
 //! C18 — Reported drawdowns are the peak-to-trough declines of the value curve.
 //!
-//! E-SEQ: every timed value sequence of length <= d over values {-1,0,1,2,3,4} x gaps {1 ms, 1 s}
-//! whose first value is positive (=> every running maximum is positive, as the statement requires;
+//! E-SEQ: every timed value sequence of length <= d over values {-1,0,1,2,3,4} x gaps {1 ms, 1 s} (pass
+//! "curve") and x gaps {0, 1 s} (pass "ties"; gap 0 = a further point at the SAME instant: times are
+//! non-decreasing, the points of a curve are its sequence) whose first value is positive (=> every running maximum is positive, as the statement requires;
 //! later values may be zero or negative like a PnL curve) is fed point by point to the REAL
 //!   (a) `DrawdownGenerator` (started with `default()` and, separately, with `init(first point)`), its
 //!       returned drawdowns being fed to the real `MaxDrawdownGenerator` / `MeanDrawdownGenerator`;
@@ -32,6 +33,16 @@
 //!  plus the current one the sheet shows. This layering keeps a defect of the generator itself under
 //!  "C18/generator/..." only; "C18/asset-tear-sheet/..." and "C18/pnl-tear-sheet/..." then point at the
 //!  wiring of the sheets (wrong value fed, current drawdown not folded into max/mean, ...).
+//!
+//! Further code paths to the same observations, each judged by the same rules under its own tag:
+//!  * `generator-polled`: a generator whose `generate()` is called IN PLACE after every point (reporting the
+//!    current drawdown must not disturb what is reported later);
+//!  * `mean-max-init-start`: Mean/Max generators started with `init(first reported drawdown)`;
+//!  * `asset-tear-sheet-init`: an `AssetState` whose sheet is started with `TearSheetAssetGenerator::init(first
+//!    balance)` (how the engine state is built) - the first balance is the first point of the curve.
+//! The asset's FREE balance moves differently from its total (the equity curve is the total); a closed
+//! position's entry time lies before its exit time (cumulative realised PnL changes at the exit).
+//! Passes `scaled-*` run the curves multiplied by 0.00000001 and by 1234567.891 (relative declines are the same).
 
 use super::common::*;
 use crate::core::{Ctx, Outcome, hash_of};
@@ -66,6 +77,10 @@ use serde_json::{Value, json};
 
 const VALUES: [i64; 6] = [1, 2, 3, 4, 0, -1];
 const GAPS_MS: [i64; 2] = [1, 1000];
+/// pass "ties": gap 0 = a further point at the SAME instant as the previous one
+const TIE_GAPS_MS: [i64; 2] = [0, 1000];
+/// a closed position is held for this long: its entry time differs from the time its PnL is realised
+const HOLD_MS: i64 = 7;
 /// pass 2 ("deep"): one more level, a single gap, longer curves
 const DEEP_VALUES: [i64; 7] = [1, 2, 3, 4, 5, 0, -1];
 
@@ -87,11 +102,20 @@ pub struct St {
     diverged: bool,
     dd: DrawdownGenerator,
     dd_init: Option<DrawdownGenerator>,
+    /// same curve, but `generate()` is called on the generator itself after every point
+    dd_polled: DrawdownGenerator,
+    polled_diverged: bool,
+    /// tear sheets (asset, asset-init, pnl) whose current drawdown was already found not to be the curve's
+    sheet_diverged: [bool; 3],
     max: MaxDrawdownGenerator,
     mean: MeanDrawdownGenerator,
+    /// Mean/Max generators started with `init(first reported drawdown)` instead of `default()` + `update`
+    mean_max_init: Option<(MeanDrawdownGenerator, MaxDrawdownGenerator)>,
     /// every drawdown the raw generator's `update` has returned so far ("the drawdowns reported")
     emitted: Vec<Drawdown>,
     asset: AssetState,
+    /// asset state whose tear sheet was started with `TearSheetAssetGenerator::init(first balance)`
+    asset_init: Option<AssetState>,
     ts: TearSheetGenerator,
 }
 
@@ -283,7 +307,8 @@ fn check_max_mean(
 
 /// A tear sheet is fed the same curve as the raw generator: its current drawdown must be the raw
 /// generator's, and its max/mean must be those of (drawdowns the raw generator completed) + (the
-/// current one the sheet itself reports). Checking against the raw generator's *observations* keeps
+/// current one the sheet itself reports). Returns true when the sheet's current drawdown is not the curve's
+/// (the sheet has diverged from the curve; every path is explored, so the first manifestation is reported). Checking against the raw generator's *observations* keeps
 /// a defect of the generator itself out of the tear-sheet signatures (it is reported once, under
 /// "generator/..."), so these signatures point at the wiring of the tear sheet.
 fn check_sheet(
@@ -295,7 +320,7 @@ fn check_sheet(
     sheet_mean: &Option<MeanDrawdown>,
     out: &mut Vec<Viol>,
     ctxt: &dyn Fn() -> String,
-) {
+) -> bool {
     let same = match (gen_current, sheet_current) {
         (None, None) => true,
         (Some(a), Some(b)) => close(a.value, b.value, tol24()) && a.time_start == b.time_start,
@@ -306,15 +331,27 @@ fn check_sheet(
             format!("C18/{tag}/current/not-the-curve's-current-drawdown"),
             format!("sheet reports {sheet_current:?}, the curve's current drawdown is {gen_current:?}; {}", ctxt()),
         ));
+        // the sheet follows another curve: its max / mean (now and further down this path) would only repeat
+        // that under six more names - the caller stops judging this sheet on this path
+        return true;
     }
     let mut reported = emitted.to_vec();
     reported.extend(sheet_current.iter().cloned());
     check_max_mean(tag, &reported, sheet_max, sheet_mean, out, ctxt);
+    false
 }
 
 pub struct M {
     values: Vec<i64>,
     gaps: Vec<i64>,
+    /// every curve value is `v * factor` (factor > 0): relative declines do not depend on it
+    factor: Decimal,
+}
+
+/// The balance reported at point `i` of the curve: the equity is the TOTAL; the free part moves on its own
+/// (total/2 minus a growing locked amount), so its peaks and troughs are not those of the total.
+fn balance_of(total: Decimal, i: usize) -> Balance {
+    Balance::new(total, total / Decimal::TWO - Decimal::from(i as i64))
 }
 
 fn points(hist: &[P], last: Option<&P>) -> Vec<(i64, DateTime<Utc>)> {
@@ -328,16 +365,16 @@ fn points(hist: &[P], last: Option<&P>) -> Vec<(i64, DateTime<Utc>)> {
         .collect()
 }
 
-fn position(pnl: i64, t: DateTime<Utc>) -> PositionExited<QuoteAsset, InstrumentIndex> {
+fn position(pnl: Decimal, t: DateTime<Utc>) -> PositionExited<QuoteAsset, InstrumentIndex> {
     PositionExited {
         instrument: InstrumentIndex(0),
         side: Side::Buy,
         price_entry_average: Decimal::from(100),
         quantity_abs_max: Decimal::ONE,
-        pnl_realised: Decimal::from(pnl),
+        pnl_realised: pnl,
         fees_enter: AssetFees::quote_fees(Decimal::ZERO),
         fees_exit: AssetFees::quote_fees(Decimal::ZERO),
-        time_enter: t,
+        time_enter: t - chrono::TimeDelta::milliseconds(HOLD_MS),
         time_exit: t,
         trades: vec![],
     }
@@ -354,10 +391,15 @@ impl SeqModel for M {
             diverged: false,
             dd: DrawdownGenerator::default(),
             dd_init: None,
+            dd_polled: DrawdownGenerator::default(),
+            polled_diverged: false,
+            sheet_diverged: [false; 3],
             max: MaxDrawdownGenerator::default(),
             mean: MeanDrawdownGenerator::default(),
+            mean_max_init: None,
             emitted: Vec::new(),
             asset: AssetState::new(Asset::new("usdt", "USDT"), TearSheetAssetGenerator::default(), None),
+            asset_init: None,
             ts: TearSheetGenerator::init(t0()),
         }
     }
@@ -379,9 +421,9 @@ impl SeqModel for M {
     fn step(&self, s: &mut St, p: &P, hist: &[P], out: &mut Vec<Viol>) {
         let pts = points(hist, Some(p));
         let i = pts.len() - 1;
-        let (t, val) = (pts[i].1, Decimal::from(p.v));
+        let (t, val) = (pts[i].1, Decimal::from(p.v) * self.factor);
         let exceeds_peak = i > 0 && pts[..i].iter().all(|(v, _)| *v < p.v);
-        let ctxt = || format!("curve={:?}", pts.iter().map(|(v, t)| (*v, (*t - t0()).num_milliseconds())).collect::<Vec<_>>());
+        let ctxt = || format!("curve(value x {}, ms)={:?}", self.factor, pts.iter().map(|(v, t)| (*v, (*t - t0()).num_milliseconds())).collect::<Vec<_>>());
 
         // ---- reference decomposition of the whole curve so far
         let (completed, current) = decompose(&pts);
@@ -397,6 +439,13 @@ impl SeqModel for M {
             s.mean.update(d);
             s.max.update(d);
             s.emitted.push(d.clone());
+            match &mut s.mean_max_init {
+                None => s.mean_max_init = Some((MeanDrawdownGenerator::init(d.clone()), MaxDrawdownGenerator::init(d.clone()))),
+                Some((mean, max)) => {
+                    mean.update(d);
+                    max.update(d);
+                }
+            }
         }
         let gen_current = s.dd.clone().generate();
         if !s.diverged && out.len() == before {
@@ -405,6 +454,21 @@ impl SeqModel for M {
         s.diverged |= out.len() > before;
         // R3/R4: max / mean of the drawdowns `update` has actually reported so far
         check_max_mean("generator", &s.emitted, &s.max.generate(), &s.mean.generate(), out, &ctxt);
+        if let Some((mean, max)) = &s.mean_max_init {
+            check_max_mean("mean-max-init-start", &s.emitted, &max.generate(), &mean.generate(), out, &ctxt);
+        }
+
+        // generator whose current drawdown is read in place after every point: R1/R2 all the same
+        let got_p = s.dd_polled.update(Timed::new(val, t));
+        let before_p = out.len();
+        if !s.polled_diverged && !s.diverged {
+            check_emission("generator-polled", &got_p, want_now, exceeds_peak, out, &ctxt);
+        }
+        let cur_p = s.dd_polled.generate();
+        if !s.polled_diverged && !s.diverged && out.len() == before_p {
+            check_current("generator-polled", &cur_p, current.as_ref(), out, &ctxt);
+        }
+        s.polled_diverged |= out.len() > before_p;
 
         // same generator started through `init(first point)`: must behave like the default start
         match &mut s.dd_init {
@@ -422,21 +486,37 @@ impl SeqModel for M {
         }
 
         // ---- (b) asset tear sheet through the real producer AssetState::update_from_balance
-        s.asset.update_from_balance(Snapshot(&AssetBalance {
-            asset: AssetIndex(0),
-            balance: Balance::new(val, val),
-            time_exchange: t,
-        }));
+        let balance = balance_of(val, i);
+        s.asset.update_from_balance(Snapshot(&AssetBalance { asset: AssetIndex(0), balance, time_exchange: t }));
         let sheet = s.asset.statistics.clone().generate();
-        check_sheet("asset-tear-sheet", &s.emitted, &gen_current, &sheet.drawdown, &sheet.drawdown_max, &sheet.drawdown_mean, out, &ctxt);
-        if sheet.balance_end != Some(Balance::new(val, val)) {
+        if !s.sheet_diverged[0] {
+            s.sheet_diverged[0] = check_sheet("asset-tear-sheet", &s.emitted, &gen_current, &sheet.drawdown, &sheet.drawdown_max, &sheet.drawdown_mean, out, &ctxt);
+        }
+        if sheet.balance_end != Some(balance) {
             out.push(("C18/asset-tear-sheet/balance-end".into(), format!("balance_end={:?}; {}", sheet.balance_end, ctxt())));
+        }
+        // the same through an asset state built around its first balance (TearSheetAssetGenerator::init)
+        match &mut s.asset_init {
+            None => {
+                let first = Timed::new(balance, t);
+                s.asset_init = Some(AssetState::new(Asset::new("usdt", "USDT"), TearSheetAssetGenerator::init(&first), Some(first)));
+            }
+            Some(a) => a.update_from_balance(Snapshot(&AssetBalance { asset: AssetIndex(0), balance, time_exchange: t })),
+        }
+        let sheet = s.asset_init.as_ref().unwrap().statistics.clone().generate();
+        if !s.sheet_diverged[1] {
+            s.sheet_diverged[1] = check_sheet("asset-tear-sheet-init", &s.emitted, &gen_current, &sheet.drawdown, &sheet.drawdown_max, &sheet.drawdown_mean, out, &ctxt);
+        }
+        if sheet.balance_end != Some(balance) {
+            out.push(("C18/asset-tear-sheet-init/balance-end".into(), format!("balance_end={:?}; {}", sheet.balance_end, ctxt())));
         }
 
         // ---- (c) instrument tear sheet: curve = cumulative realised PnL of closed positions
-        s.ts.update_from_position(&position(p.v - s.last_v, t));
+        s.ts.update_from_position(&position(Decimal::from(p.v - s.last_v) * self.factor, t));
         let sheet = s.ts.clone().generate(Decimal::ZERO, Daily);
-        check_sheet("pnl-tear-sheet", &s.emitted, &gen_current, &sheet.pnl_drawdown, &sheet.pnl_drawdown_max, &sheet.pnl_drawdown_mean, out, &ctxt);
+        if !s.sheet_diverged[2] {
+            s.sheet_diverged[2] = check_sheet("pnl-tear-sheet", &s.emitted, &gen_current, &sheet.pnl_drawdown, &sheet.pnl_drawdown_max, &sheet.pnl_drawdown_mean, out, &ctxt);
+        }
 
         s.t_ms += p.gap_ms;
         s.last_v = p.v;
@@ -454,59 +534,77 @@ impl SeqModel for M {
     }
 }
 
+/// The passes by label (also used by `replay`).
+fn model(label: &str) -> M {
+    let f = |x: &str| <Decimal as std::str::FromStr>::from_str(x).unwrap();
+    match label {
+        "ties" => M { values: VALUES.to_vec(), gaps: TIE_GAPS_MS.to_vec(), factor: Decimal::ONE },
+        "deep" => M { values: DEEP_VALUES.to_vec(), gaps: vec![1000], factor: Decimal::ONE },
+        "scaled-small" => M { values: VALUES.to_vec(), gaps: vec![1000], factor: f("0.00000001") },
+        "scaled-large" => M { values: VALUES.to_vec(), gaps: vec![1000], factor: f("1234567.891") },
+        _ => M { values: VALUES.to_vec(), gaps: GAPS_MS.to_vec(), factor: Decimal::ONE },
+    }
+}
+
 pub fn run(ctx: &Ctx) -> Outcome {
-    // pass 1: both gaps (durations vary); pass 2: one more value level, single gap, deeper
+    // pass "curve": two gaps (durations vary); pass "ties": gaps 0 / 1 s (several points at one instant); pass
+    // "deep": one more value level, single gap, longer curves; passes "scaled-*": the curve times 1e-8 /
+    // 1234567.891, single gap
     let max_len = ctx.tier.pick(5, 7);
-    let m = M { values: VALUES.to_vec(), gaps: GAPS_MS.to_vec() };
-    let st1 = seq::run(ctx, &m, "curve", max_len);
-    let deep_len = ctx.tier.pick(7, 9);
-    let m2 = M { values: DEEP_VALUES.to_vec(), gaps: vec![1000] };
-    let st2 = seq::run(ctx, &m2, "deep", deep_len);
-    let st = seq::SeqStats {
-        sequences: st1.sequences + st2.sequences,
-        steps: st1.steps + st2.steps,
-        distinct_final: st1.distinct_final + st2.distinct_final,
-        ..Default::default()
-    };
+    let ties_len = ctx.tier.pick(5, 6);
+    let deep_len = ctx.tier.pick(7, 8);
+    let scaled_len = ctx.tier.pick(5, 7);
+    let passes = [("curve", max_len), ("ties", ties_len), ("deep", deep_len), ("scaled-small", scaled_len), ("scaled-large", scaled_len)];
+    let mut per_pass = Vec::new();
+    let (mut sequences, mut steps, mut distinct) = (0u64, 0u64, 0usize);
+    for (label, len) in passes {
+        let t = std::time::Instant::now();
+        let st = seq::run(ctx, &model(label), label, len);
+        eprintln!("C18 pass {label}: {} sequences {:.1}s", st.sequences, t.elapsed().as_secs_f64());
+        sequences += st.sequences;
+        steps += st.steps;
+        distinct += st.distinct_final;
+        per_pass.push(json!({"pass": label, "max_len": len, "sequences": st.sequences, "evaluations": st.steps, "distinct_final": st.distinct_final}));
+    }
     Outcome {
         level: "exploration",
         coverage: json!({
-            "evaluations": st.steps,
-            "sequences": st.sequences,
-            "distinct_nontrivial": st.distinct_final,
+            "evaluations": steps,
+            "sequences": sequences,
+            "distinct_nontrivial": distinct,
             "exhaustive": true,
             "max_len": max_len,
+            "ties_max_len": ties_len,
             "deep_max_len": deep_len,
+            "scaled_max_len": scaled_len,
             "deep_values": DEEP_VALUES,
-            "per_pass": [
-                {"pass": "curve", "sequences": st1.sequences, "evaluations": st1.steps, "distinct_final": st1.distinct_final},
-                {"pass": "deep", "sequences": st2.sequences, "evaluations": st2.steps, "distinct_final": st2.distinct_final},
-            ],
+            "per_pass": per_pass,
             "values": VALUES,
             "gaps_ms": GAPS_MS,
-            "rule": "every timed curve of <= max_len points (first value > 0) fed to the real DrawdownGenerator (default and init start) + Max/Mean generators, AssetState::update_from_balance -> TearSheetAssetGenerator and TearSheetGenerator::update_from_position; after every point: update()'s return, generate(), max, mean and both tear sheets compared with the record-high decomposition of the curve",
+            "ties_gaps_ms": TIE_GAPS_MS,
+            "scale_factors": ["1", "0.00000001", "1234567.891"],
+            "rule": "every timed curve of <= max_len points (first value > 0, non-decreasing times) fed to the real DrawdownGenerator (default start, init start, and one polled with generate() in place) + Max/Mean generators (default and init start), AssetState::update_from_balance -> TearSheetAssetGenerator (default start and init(first balance); free balance != total) and TearSheetGenerator::update_from_position (entry time != exit time); after every point: update()'s return, generate(), max, mean and the tear sheets compared with the record-high decomposition of the curve",
             "samples": [
                 {"seq": [{"v":2,"gap_ms":1},{"v":1,"gap_ms":1000},{"v":2,"gap_ms":1},{"v":3,"gap_ms":1000}], "note": "recovery exactly to the peak does not end the drawdown; it ends at 3"},
                 {"seq": [{"v":1,"gap_ms":1},{"v":2,"gap_ms":1},{"v":3,"gap_ms":1}], "note": "monotone: nothing reported"},
                 {"seq": [{"v":3,"gap_ms":1},{"v":-1,"gap_ms":1000},{"v":4,"gap_ms":1}], "note": "PnL-like curve below zero: depth 4/3"},
+                {"label": "ties", "seq": [{"v":3,"gap_ms":0},{"v":1,"gap_ms":0},{"v":4,"gap_ms":1000}], "note": "the dip is a second point at the instant of the peak: drawdown 2/3 from that instant to 1 s later"},
             ],
         }),
         assumptions: vec![
-            "curves have a positive first value (hence positive running maxima) and strictly increasing times; later values may be <= 0".into(),
+            "curves have a positive first value (hence positive running maxima) and non-decreasing times; later values may be <= 0".into(),
+            "a curve is its SEQUENCE of points: a point at the same instant as the previous one is a further point (AssetState applies a balance snapshot with an equal timestamp)".into(),
             "the end time of an unfinished (current) drawdown is not specified by the statement and is not checked".into(),
             "a point equal to the running maximum does not set a new maximum ('the next point that exceeds it')".into(),
             "mean duration is an integer number of ms: tolerance k ms for k drawdowns; depth tolerance 1e-24 (mean 1e-20)".into(),
-            "tear sheets are generated once, on a clone, after each point (generating twice on the same generator is outside the statement)".into(),
+            "tear sheets are generated once, on a clone, after each point (generating twice on the same generator is outside the statement); the raw generator's generate() may be called at any time".into(),
+            "the equity curve of an asset is its TOTAL balance; the cumulative realised PnL of an instrument changes at a position's exit time".into(),
         ],
     }
 }
 
 pub fn replay(ctx: &Ctx, case: &Value) {
-    let m = if case["label"].as_str() == Some("deep") {
-        M { values: DEEP_VALUES.to_vec(), gaps: vec![1000] }
-    } else {
-        M { values: VALUES.to_vec(), gaps: GAPS_MS.to_vec() }
-    };
+    let m = model(case["label"].as_str().unwrap_or("curve"));
     for (sig, detail) in seq::replay(&m, case) {
         ctx.violate(sig, detail, case.clone());
     }
